@@ -12,7 +12,9 @@ BUILD = os.path.join(VERIF, "build")
 REPO = os.environ.get("VERIF_REPO") or "/repo"
 GUARD = "-DTUKAANI_PROJECT_XZ_VERIF"
 
-SAN = "-O1 -g -fno-omit-frame-pointer -fsanitize=address,undefined,fuzzer-no-link -fno-sanitize-recover=undefined"
+# coverage feedback without trace-cmp: libFuzzer's cmp callbacks made the LZMA encoder ~20x slower
+COV = "-fsanitize-coverage=inline-8bit-counters,pc-table"
+SAN = f"-O1 -g -fno-omit-frame-pointer -fsanitize=address,undefined {COV} -fno-sanitize-recover=undefined"
 COMMON = ["-DBUILD_SHARED_LIBS=OFF", "-DXZ_NLS=OFF", "-DXZ_DOC=OFF", "-DCMAKE_BUILD_TYPE=Debug", "-DCMAKE_C_FLAGS_DEBUG=-g"]
 
 SCHED_INC = os.path.join(VERIF, "sched", "vsched_rename.h")
@@ -21,7 +23,7 @@ VARIANTS = {
     # name: (compiler, cflags, extra cmake args, targets)
     "asan": ("clang", f"{SAN} {GUARD}", ["-DXZ_SANDBOX=no"], ["liblzma"]),
     "sched": ("clang", f"{SAN} {GUARD} -include {SCHED_INC}", ["-DXZ_SANDBOX=no"], ["liblzma"]),
-    "tsan": ("clang", f"-O1 -g -fno-omit-frame-pointer -fsanitize=thread,fuzzer-no-link {GUARD}", ["-DXZ_SANDBOX=no"], ["liblzma"]),
+    "tsan": ("clang", f"-O1 -g -fno-omit-frame-pointer -fsanitize=thread {COV} {GUARD}", ["-DXZ_SANDBOX=no"], ["liblzma"]),
     "gen": ("clang", f"{SAN} {GUARD}", ["-DXZ_SANDBOX=no", "-DXZ_CLMUL_CRC=OFF"], ["liblzma"]),
     "small": ("clang", f"{SAN} {GUARD}", ["-DXZ_SANDBOX=no", "-DXZ_SMALL=ON"], ["liblzma"]),
     "clmul": ("clang", f"{SAN} {GUARD} -mssse3 -msse4.1 -mpclmul", ["-DXZ_SANDBOX=no"], ["liblzma"]),
@@ -74,7 +76,7 @@ def build_lib(variant):
             # a cache that points to a different source tree must be redone
             with open(cache, errors="replace") as f:
                 txt = f.read()
-            if f"CMAKE_HOME_DIRECTORY:INTERNAL={REPO}\n" not in txt:
+            if f"CMAKE_HOME_DIRECTORY:INTERNAL={REPO}\n" not in txt or f"CMAKE_C_FLAGS:STRING={cflags}\n" not in txt:
                 need_cfg = True
                 subprocess.run(["rm", "-rf", d])
         if need_cfg:
@@ -134,7 +136,7 @@ def build_target(name, variant="asan", src=None, extra_flags=(), fuzzer=True, ou
         else:
             san = "-fsanitize=address,undefined" + (",fuzzer" if fuzzer else "") + " -fno-sanitize-recover=undefined"
         cmd = ["clang++", "-std=gnu++17", "-g", "-O1", "-fno-omit-frame-pointer", "-Wall", "-Wno-unused-function", "-Wno-misleading-indentation"] + san.split() + [
-            f"-I{REPO}/src/liblzma/api", f"-I{VERIF}/harness", f"-I{VERIF}/sched", f"-DVARIANT_{variant.upper()}=1"] + list(extra_flags) + srcs
+            f"-I{REPO}/src/liblzma/api", f"-I{VERIF}/harness", f"-I{VERIF}/sched", f"-DVARIANT_{variant.upper()}=1"] + ["-fno-sanitize-coverage=trace-cmp"] + list(extra_flags) + srcs
         if fuzzer:
             cmd.append(os.path.join(VERIF, "harness", "vmut.cc"))
         cmd += [lib, "-lpthread", "-o", out + ".tmp"]
